@@ -26,6 +26,10 @@ class _Boom(Exception):
     pass
 
 
+class _Halt(BaseException):
+    """Stands for KeyboardInterrupt / GeneratorExit / SystemExit leaving a `with` body."""
+
+
 def setup(repo):
     if repo not in sys.path:
         sys.path.insert(0, repo)
@@ -205,8 +209,10 @@ class Actor:
                         r = self.level(depth + 1)
                         if r == "exception":
                             raise _Boom()
+                        if r == "base_exception":
+                            raise _Halt()
                     res = ("ok", "")
-                except _Boom:
+                except (_Boom, _Halt):
                     res = ("ok", "")
                 except Exception as ex:
                     if not entered:
@@ -341,14 +347,14 @@ def main():
                                 continue
                             cm, m = stack.pop()
                             op = dict(op, m=m)
-                            if op["how"] == "exception":
+                            if op["how"] in ("exception", "base_exception"):
                                 try:
-                                    raise _Boom()
-                                except _Boom:
+                                    raise (_Boom() if op["how"] == "exception" else _Halt())
+                                except (_Boom, _Halt):
                                     ei = sys.exc_info()
                                     try:
                                         cm.__exit__(*ei)
-                                    except _Boom:
+                                    except (_Boom, _Halt):
                                         pass
                             else:
                                 cm.__exit__(None, None, None)
